@@ -13,7 +13,7 @@ UTC = datetime.timezone.utc
 GEN = datetime.datetime(2020, 1, 2, 3, 4, 5, tzinfo=UTC)
 T1, T2 = datetime.datetime(2001, 1, 1, tzinfo=UTC), datetime.datetime(2002, 2, 2, tzinfo=UTC)
 SELECTORS = {None: lambda r: True, "r.n >= 2": lambda r: r.n >= 2, "r.n != 3 and has_field(r, 's')": lambda r: r.n != 3 and hasattr(r, "s"), "name(r) == 'c16/b' or r.n == 0": lambda r: r._desc.name == "c16/b" or r.n == 0,
-             "r.nosuch == 1": lambda r: False, "r.n >= 1": lambda r: r.n >= 1, "'t' in r.t": lambda r: hasattr(r, "t") and "t" in r.t, "r.n in (0, 2, 4)": lambda r: r.n in (0, 2, 4)}
+             "r.nosuch == 1": lambda r: False, "r.n >= 1": lambda r: r.n >= 1, "'t' in r.t": lambda r: hasattr(r, "t") and "t" in r.t, "r.n in (0, 2, 4)": lambda r: r.n in (0, 2, 4), "any(x == r.n for x in (0, 2, 3, 5))": lambda r: r.n in (0, 2, 3, 5)}
 
 
 def _descs():
@@ -225,6 +225,26 @@ def c16_writers(opts=None):
     return {"violates": bool(bad), "detail": bad}
 
 
+def c16_split(count=1, suffix_length=1, n=12):
+    from flow.record import RecordReader
+
+    with tempfile.TemporaryDirectory() as td:
+        paths, intact = _make_sources(td, ["A" * n])
+        _run(["--split", str(count), "--suffix-length", str(suffix_length), "-w", os.path.join(td, "out.records")] + paths)
+        got = []
+        for p in sorted(glob.glob(os.path.join(td, "out.*.records"))):
+            try:
+                with RecordReader(p) as rd:
+                    part = [r.n for r in rd]
+            except Exception:
+                part = []
+            if len(part) > count:
+                return {"violates": True, "detail": f"part {os.path.basename(p)} holds {len(part)} records"}
+            got += part
+        want = [r.n for r in intact[0]]
+    return {"violates": sorted(got) != want, "detail": f"parts hold n={sorted(got)}, written n={want}"}
+
+
 def c16_sweep(seed=0, n=60):
     rng = random.Random(seed)
     cases = 0
@@ -269,7 +289,10 @@ def c16_sweep(seed=0, n=60):
                 bad = f"raised {type(e).__name__}: {e}"
             if bad:
                 return {"violates": True, "detail": f"run {i}: writers / modes with {o2}: {bad}"[:600], "witness": {"seed": seed, "run": i, "writers": True}, "cases": cases}
+    r = c16_split(1, 1, 12)
+    if r["violates"]:
+        return {"violates": True, "detail": "--split 1 --suffix-length 1 with 12 records: " + r["detail"], "witness": {"split": True}, "cases": cases}
     return {"violates": False, "cases": cases}
 
 
-CALLS = {"c16_pipeline": c16_pipeline, "c16_isolate": c16_isolate, "c16_writers": c16_writers, "c16_sweep": c16_sweep}
+CALLS = {"c16_split": c16_split, "c16_pipeline": c16_pipeline, "c16_isolate": c16_isolate, "c16_writers": c16_writers, "c16_sweep": c16_sweep}
